@@ -62,4 +62,15 @@ CommitsOutput(ht, i, j) ==
   CASE BaseType(ht) = SIGHASH_NONE -> FALSE
     [] BaseType(ht) = SIGHASH_SINGLE -> j = i + 1
     [] OTHER -> TRUE
+\* does hash type h, signing input i (0-based) of a transaction with no outputs, commit to what edit e = [k, j, f] changes?
+\* (k: "in"/"out" field edits, "ver", "lock", "append-in", "remove-last-in", "append-out", "remove-last-out", "other-key", "none")
+CommitsEdit(h, i, no, e) ==
+  CASE e.k = "in" -> CommitsInput(h, i, e.j, e.f)
+    [] e.k = "out" -> CommitsOutput(h, i, e.j)
+    [] e.k \in {"ver", "lock", "other-key"} -> TRUE
+    [] e.k = "none" -> FALSE
+    [] e.k \in {"append-in", "remove-last-in"} -> ~AnyoneCanPay(h)            \* the set of other inputs
+    [] e.k = "append-out" -> BaseType(h) \notin {SIGHASH_NONE, SIGHASH_SINGLE}
+    [] e.k = "remove-last-out" -> CommitsOutput(h, i, no)
+
 =============================================================================
